@@ -36,6 +36,9 @@ RULE = ("transmitter: grids of 1-8 points given unsorted and with duplicates, 0-
         "processed, EventNewDate stamped with the last event of the previous date, env.now() and the contracts clock equal to those stamps, order "
         "book after reset = last quote in chronological order. Non-trivial = at least one latent event, one replayed history event and one "
         "undeliverable event (environment: additionally a date boundary inside an episode). at-ruin: C09's ruin scenarios (decision arriving broke through a latent quote, or ruin during the step's own events): after every step, the ruin step included, the environment clock and the exchange stand at the latest event of the timestep the step landed on.")
+RULE = RULE + (" bulk: 30-150 events on a handful of distinct timestamps (on, just after and around the latency bound of 2-10 grid points), "
+               "inserted in an order unrelated to time and handed over in segments through Transmitter.add_events and through "
+               "Transmitter.add_custom_events (DataFrames whose rows are not sorted by time); same delivery model, ties in insertion order.")
 ASSUMPTIONS = [
     "under markov reset, events stamped before the first grid point are not generated (the statement's clauses disagree about them)",
     "environment part: every event-bearing timestep carries an event exactly at the grid point (otherwise two decisions can share a timestamp; belongs to no listed property)",
